@@ -412,6 +412,9 @@ func (b *builder) genParams(n int, c tctx, results bool, forbidden map[string]bo
 		el := b.genType(c)
 		if b.chance(0.3) {
 			el = basic("any")
+		} else if len(b.t.Deps) > 0 && b.chance(0.4) {
+			d := b.t.Deps[b.rng.Intn(len(b.t.Deps))]
+			el = pkgT(d, d.Struct)
 		}
 		ps[n-1].Type = slice(el)
 	}
@@ -595,6 +598,29 @@ func (b *builder) addFixed() {
 				{Name: "Put", Params: []Param{{"", k}, {"", e}}},
 				{Name: "Each", Params: []Param{{"fn", &T{Kind: KFunc, Params: []*T{k, e}, Results: []*T{bl}}}}}}})
 	}
+	// embedding-only: all methods come from embedded interfaces
+	t.Ifaces = append(t.Ifaces, &Iface{Name: "FxEmbedOnly", File: file, Exportable: true, Tags: []string{"fixed"},
+		Embeds: []*T{local(t.Locals.Emb), local(t.Locals.StrIf)}})
+	fnA := &T{Kind: KFunc, Params: []*T{in}, Results: []*T{bl}}
+	fnB := &T{Kind: KFunc, Params: []*T{in, er}}
+	mk("FxVisitor",
+		Method{Name: "Each", Params: []Param{{"visit", fnA}, {"skipped", fnB}}, Results: []Param{{"", in}}},
+		Method{Name: "Walk", Params: []Param{{"", fnA}}},
+		Method{Name: "Seek", Params: []Param{{"pos", in}, {"cb", fnB}}})
+	if !b.prof.Runtime {
+		// an unexported method: can only be mocked inside the source package (also under -pkg <source name>)
+		// unnamed parameters of a lower-case alias spelled like its target (type person = Person)
+		la := &T{Kind: KLocal, Name: t.Locals.LowerAlias, Unexported: true}
+		t.Ifaces = append(t.Ifaces, &Iface{Name: "FxLowerAlias", File: file, Exportable: false, Tags: []string{"fixed"},
+			Methods: []Method{{Name: "RoundTrip", Params: []Param{{"", ptr(la)}}, Results: []Param{{"", er}}}, {Name: "Configure", Params: []Param{{"", la}, {"", in}}}}})
+		t.Ifaces = append(t.Ifaces, &Iface{Name: "FxSealed", File: file, Exportable: false, Tags: []string{"fixed"},
+			Methods: []Method{{Name: "seal"}, {Name: "Open", Results: []Param{{"", er}}}, {Name: "visitAll", Params: []Param{{"", fnA}}}}})
+	}
+	mapT := &T{Kind: KMap, Key: str, Elem: in}
+	mk("FxCatalog",
+		Method{Name: "Index", Results: []Param{{"", mapT}}},
+		Method{Name: "Tags", Params: []Param{{"prefix", str}}, Results: []Param{{"", local(t.Locals.Map)}, {"", er}}},
+		Method{Name: "Parts", Results: []Param{{"", slice(str)}, {"", ptr(local(t.Locals.Struct))}, {"", &T{Kind: KChan, Elem: in}}, {"", &T{Kind: KFunc}}}})
 	mk("FxEmpty")
 	mk("FxMarker")
 	mk("FxSingle",
@@ -626,7 +652,7 @@ func (b *builder) genTParams(i *Iface) {
 	l := b.t.Locals
 	for k := 0; k < n; k++ {
 		tp := TParam{Name: names[perm[k]], CKind: "any"}
-		kinds := []string{"any", "any", "method", "union", "depunion", "depmethod", "ordered", "stdmethod"}
+		kinds := []string{"any", "any", "method", "union", "depunion", "depmethod", "ordered", "stdmethod", "stdnamedunion"}
 		hard := []string{"comparable", "tildeSliceOf", "hybrid", "fbound"}
 		if b.hz.UnionNamedTerm {
 			hard = append(hard, "namedunion")
@@ -658,6 +684,11 @@ func (b *builder) genTParams(i *Iface) {
 			tp.Constraint, tp.Comparable = pkgT(b.std("cmp"), "Ordered"), true
 		case "stdmethod":
 			tp.Constraint = pkgT(b.std("fmt"), "Stringer")
+		case "stdnamedunion":
+			// first term is a named, non-~ type of a single-segment package: the self-check happens to be valid
+			tm := b.std("time")
+			tp.Constraint = &T{Kind: KIface, Embeds: []*T{{Kind: KPkg, Pkg: tm, Name: "Duration | " + "TIMEQ" + ".Month"}}}
+			tp.Comparable = true
 		case "comparable":
 			tp.Constraint, tp.Comparable = basic("comparable"), true
 			i.NeedsSkipEnsure = true
@@ -694,6 +725,8 @@ func (b *builder) genTParams(i *Iface) {
 			tp.Arg = local(l.Key)
 		case "union", "ordered":
 			tp.Arg = basic("int")
+		case "stdnamedunion":
+			tp.Arg = pkgT(b.std("time"), "Duration")
 		case "depunion", "comparable":
 			tp.Arg = basic("string")
 		case "depmethod":
